@@ -67,9 +67,13 @@ type lexer struct {
 	r     io.RuneScanner
 	n     int
 	token chan interface{}
+	done  chan struct{}
+
+	failed bool // whether the parser has reported an error
 
 	mu     sync.Mutex
-	err    error
+	err    error // error reported by the parser
+	lexErr error // error reported by the lexer
 	cancel chan struct{}
 
 	b strings.Builder
@@ -80,6 +84,7 @@ func newLexer(env *ExecEnv, r io.RuneScanner) *lexer {
 		env:    env,
 		r:      r,
 		token:  make(chan interface{}),
+		done:   make(chan struct{}),
 		cancel: make(chan struct{}),
 	}
 	verifPoint(l, EvStart)
@@ -105,6 +110,7 @@ func (l *lexer) run() {
 	defer verifPoint(l, EvExit)
 	defer func() {
 		close(l.token)
+		close(l.done)
 
 		if e := recover(); e != nil && e != errBailout {
 			// re-panic
@@ -337,7 +343,9 @@ func (l *lexer) lexOp() action {
 			}
 		}
 	default:
-		l.Error(fmt.Sprintf("unexpected %q", r))
+		l.mu.Lock()
+		l.lexErr = ArithExprError{Msg: fmt.Sprintf("unexpected %q", r)}
+		l.mu.Unlock()
 		return nil
 	}
 	l.emit(op)
@@ -377,6 +385,8 @@ func (l *lexer) unread() {
 	l.r.UnreadRune()
 }
 
+// Error reports an error detected by the parser. It is called only from
+// the goroutine which runs the parser.
 func (l *lexer) Error(s string) {
 	verifPoint(l, EvErrWrite)
 	l.mu.Lock()
@@ -385,19 +395,42 @@ func (l *lexer) Error(s string) {
 	switch {
 	case strings.HasPrefix(s, "syntax error: "):
 		s = s[14:]
-		if l.err != nil && s == "unexpected EOF" {
+		// the parser stops
+		l.stop()
+		if (l.err != nil || l.lexErr != nil) && s == "unexpected EOF" {
 			return // lexing was interrupted
 		}
 	case strings.HasPrefix(s, "runtime error: "):
 		s = s[15:]
 	}
 	l.err = ArithExprError{Msg: s}
+	l.failed = true
+}
 
+// stop stops the lexer. l.mu must be held.
+func (l *lexer) stop() {
 	select {
 	case <-l.cancel:
 	default:
 		close(l.cancel)
 	}
+}
+
+// wait stops the lexer, waits until it has finished, and returns the
+// error. The error reported by the parser takes precedence over the
+// error reported by the lexer, since it is about the preceding token.
+func (l *lexer) wait() error {
+	l.mu.Lock()
+	l.stop()
+	l.mu.Unlock()
+	<-l.done
+
+	l.mu.Lock()
+	defer l.mu.Unlock()
+	if l.err != nil {
+		return l.err
+	}
+	return l.lexErr
 }
 
 type action func() action
